@@ -57,19 +57,28 @@ def main(argv):
         meta['demo_exit_without_patch'] = rc0
         meta['demo_output_with_patch'] = o1[-600:]
         meta['confirmed'] = bool(meta['suite_passes'] and rc1 == 1 and rc0 == 0)
-        # run the check(s)
+        # run the check(s) from a private copy of the machinery, so that /verif/sim can be
+        # edited while this runs
+        snap = wt + '_verif'
+        shutil.rmtree(snap, ignore_errors=True)
+        os.makedirs(snap)
+        for d in ('sim', 'regress'):
+            shutil.copytree(os.path.join(VERIF, d), os.path.join(snap, d))
+        shutil.copy(os.path.join(VERIF, 'known_findings.txt'), snap)
+        meta['verif_commit'] = sh(['git', '-C', VERIF, 'rev-parse', '--short', 'HEAD'])[1].strip()
         meta['checks'] = []
         for pr in prop.split(','):
             env = dict(os.environ, VERIF_REPO=wt, VERIF_NO_DETCHECK='1', VERIF_EVIDENCE_DIR=os.path.join(wt, '.ev'))
-            cmd = [PY, '-B', os.path.join(VERIF, 'sim', 'check.py'), pr, '--tier', 'quick']
+            cmd = [PY, '-B', os.path.join(snap, 'sim', 'check.py'), pr, '--tier', 'quick']
             if runs:
                 cmd += ['--runs', runs]
             t0 = time.time()
-            rc, o = sh(cmd, env=env, cwd=VERIF)
+            rc, o = sh(cmd, env=env, cwd=snap)
             lines = o.splitlines()
             vio = [l for l in lines if l.startswith('VIOLATION')]
             first = [l for l in lines if l.startswith('violation')]
-            entry = {'property': pr, 'cmd': ' '.join(cmd[1:]) + ' (VERIF_REPO=<patched tree>)', 'exit': rc,
+            entry = {'property': pr, 'cmd': 'sim/check.py %s --tier quick%s (VERIF_REPO=<patched tree>)' %
+                     (pr, (' --runs ' + runs) if runs else ''), 'exit': rc,
                      'detected': rc == 1 and bool(vio), 'violation_lines': vio[:4],
                      'first_reports': first[:3], 'summary': [l for l in lines if l.startswith(pr + ' quick')][:1],
                      'wall_s': round(time.time() - t0, 1)}
@@ -91,6 +100,7 @@ def main(argv):
     finally:
         sh(['git', '-C', '/repo', 'worktree', 'remove', '--force', wt])
         shutil.rmtree(wt, ignore_errors=True)
+        shutil.rmtree(wt + '_verif', ignore_errors=True)
     dst = os.path.join(VERIF, 'seeded', sid)
     os.makedirs(dst, exist_ok=True)
     for f in ('patch.diff', 'demo.py', 'notes.md'):
